@@ -806,3 +806,50 @@ pub fn nested_json(d: usize) -> Vec<(&'static str, String, u64)> {
     ));
     v
 }
+
+/// Extension calls in every JSON spelling x every extension function x 0..3 arguments
+/// (after finding F8 / seed C20-a1: the JSON formats do not check arity, the printers must cope):
+/// EST call form `{"<fn>": [args]}`, EST literal forms `{"Value": {"__extn": {"fn", "arg"}}}` /
+/// `{"Value": {"__extn": {"fn", "args": [..]}}}`, and the same escapes as entity attribute /
+/// context values.
+pub fn ext_call_grid() -> Vec<(Vec<u8>, u64)> {
+    const FNS: &[&str] = &[
+        "ip", "decimal", "datetime", "duration", "isIpv4", "isIpv6", "isLoopback", "isMulticast", "isInRange", "lessThan", "lessThanOrEqual", "greaterThan", "greaterThanOrEqual", "offset", "durationSince", "toDate", "toTime", "toMilliseconds", "toSeconds",
+        "toMinutes", "toHours", "toDays", "unknown", "nosuchfn", "",
+    ];
+    // argument spellings: (as EST expression, as value JSON)
+    let args_est = ["{\"Value\":\"10.0.0.1\"}", "{\"Value\":1}", "{\"ip\":[{\"Value\":\"10.0.0.1\"}]}", "{\"Var\":\"principal\"}"];
+    let args_val = ["\"10.0.0.1\"", "1", "{\"__extn\":{\"fn\":\"ip\",\"arg\":\"10.0.0.1\"}}", "{\"__entity\":{\"type\":\"User\",\"id\":\"a\"}}"];
+    let policy = |body: &str| format!("{{\"effect\":\"permit\",\"principal\":{{\"op\":\"All\"}},\"action\":{{\"op\":\"All\"}},\"resource\":{{\"op\":\"All\"}},\"conditions\":[{{\"kind\":\"when\",\"body\":{body}}}]}}");
+    let mut out: Vec<(Vec<u8>, u64)> = vec![];
+    for f in FNS {
+        for n in 0..=3usize {
+            for k in 0..args_est.len() {
+                // the k-th spelling first, then the others in rotation
+                let est: Vec<&str> = (0..n).map(|i| args_est[(k + i) % args_est.len()]).collect();
+                let val: Vec<&str> = (0..n).map(|i| args_val[(k + i) % args_val.len()]).collect();
+                let call = format!("{{\"{f}\":[{}]}}", est.join(","));
+                let multi = format!("{{\"__extn\":{{\"fn\":\"{f}\",\"args\":[{}]}}}}", val.join(","));
+                out.push((policy(&call).into_bytes(), R_J_POLICY));
+                out.push((policy(&format!("{{\"==\":{{\"left\":{call},\"right\":{{\"Value\":1}}}}}}")).into_bytes(), R_J_POLICY));
+                out.push((policy(&format!("{{\"Value\":{multi}}}")).into_bytes(), R_J_POLICY));
+                out.push((policy(&format!("{{\"==\":{{\"left\":{{\"Value\":{multi}}},\"right\":{{\"Value\":{{\"a\":[{multi}]}}}}}}}}")).into_bytes(), R_J_POLICY));
+                out.push((format!("{{\"x\":{multi}}}").into_bytes(), R_J_CONTEXT));
+                out.push((format!("[{{\"uid\":{{\"type\":\"User\",\"id\":\"a\"}},\"attrs\":{{\"x\":{multi}}},\"parents\":[]}}]").into_bytes(), R_J_ENTITIES));
+                out.push((format!("{{\"uid\":{{\"type\":\"User\",\"id\":\"a\"}},\"attrs\":{{\"x\":[{multi}]}},\"parents\":[],\"tags\":{{\"t\":{multi}}}}}").into_bytes(), R_J_ENTITY));
+                if n == 1 {
+                    let single = format!("{{\"__extn\":{{\"fn\":\"{f}\",\"arg\":{}}}}}", val[0]);
+                    out.push((policy(&format!("{{\"Value\":{single}}}")).into_bytes(), R_J_POLICY));
+                    out.push((format!("{{\"x\":{single}}}").into_bytes(), R_J_CONTEXT));
+                    out.push((format!("[{{\"uid\":{{\"type\":\"User\",\"id\":\"a\"}},\"attrs\":{{\"x\":{single}}},\"parents\":[]}}]").into_bytes(), R_J_ENTITIES));
+                }
+                if n == 0 {
+                    break; // no argument spelling to rotate
+                }
+            }
+        }
+    }
+    out.sort();
+    out.dedup();
+    out
+}
